@@ -82,6 +82,39 @@ type Case struct {
 	SigSeed          uint64          `json:"sig_seed"`
 	Committees       []CommitteeSpec `json:"committees"`
 	Duties           []DutySpec      `json:"duties"` // in the order the beacon node returns them
+	// Reorg: after the controller has started (and subscribed for both epochs) the
+	// chain re-organises: head events report changed duty-dependent roots and the
+	// beacon node answers with a new duty table from then on.
+	Reorg *ReorgSpec `json:"reorg,omitempty"`
+}
+
+// ReorgSpec is the history step "duties of an epoch change".
+type ReorgSpec struct {
+	Advance  uint64 `json:"advance"`               // slots that pass (inside epoch Epoch) before the reorg is seen
+	Previous bool   `json:"previous_root_changed"` // previous duty dependent root changed: duties of Epoch change
+	Current  bool   `json:"current_root_changed"`  // current duty dependent root changed: duties of Epoch+1 change
+	// The duty table after the reorg (both epochs; epochs whose root did not change are as before).
+	Committees []CommitteeSpec `json:"committees"`
+	Duties     []DutySpec      `json:"duties"`
+}
+
+// table is the duty table the beacon node double currently serves.
+type table struct {
+	mu         sync.Mutex
+	committees []CommitteeSpec
+	duties     []DutySpec
+}
+
+func (t *table) get() ([]CommitteeSpec, []DutySpec) {
+	t.mu.Lock()
+	defer t.mu.Unlock()
+	return t.committees, t.duties
+}
+
+func (t *table) set(cs []CommitteeSpec, ds []DutySpec) {
+	t.mu.Lock()
+	t.committees, t.duties = cs, ds
+	t.mu.Unlock()
 }
 
 func (c *Case) currentSlot() uint64 { return c.Epoch*c.SlotsPerEpoch + c.CurrentInEpoch }
@@ -200,7 +233,10 @@ func (s *slotSigner) SignSlotSelections(_ context.Context, accounts []e2wtypes.A
 }
 
 // dutiesProvider is the beacon node's attester duties endpoint.
-type dutiesProvider struct{ c *Case }
+type dutiesProvider struct {
+	c *Case
+	t *table
+}
 
 func (p *dutiesProvider) AttesterDuties(_ context.Context, opts *api.AttesterDutiesOpts) (*api.Response[[]*apiv1.AttesterDuty], error) {
 	want := map[phase0.ValidatorIndex]bool{}
@@ -208,8 +244,9 @@ func (p *dutiesProvider) AttesterDuties(_ context.Context, opts *api.AttesterDut
 		want[i] = true
 	}
 	res := []*apiv1.AttesterDuty{}
-	for _, d := range p.c.Duties {
-		cm := p.c.Committees[d.C]
+	committees, duties := p.t.get()
+	for _, d := range duties {
+		cm := committees[d.C]
 		if cm.Slot/p.c.SlotsPerEpoch != uint64(opts.Epoch) || !want[phase0.ValidatorIndex(d.V)] {
 			continue
 		}
@@ -227,10 +264,46 @@ func (p *dutiesProvider) AttesterDuties(_ context.Context, opts *api.AttesterDut
 	return &api.Response[[]*apiv1.AttesterDuty]{Data: res, Metadata: map[string]any{}}, nil
 }
 
+// eventsProvider captures the event handlers the controller registers.
+type eventsProvider struct {
+	mu       sync.Mutex
+	handlers map[string]eth2client.EventHandlerFunc
+}
+
+func (p *eventsProvider) Events(_ context.Context, topics []string, handler eth2client.EventHandlerFunc) error {
+	p.mu.Lock()
+	defer p.mu.Unlock()
+	for _, t := range topics {
+		p.handlers[t] = handler
+	}
+	return nil
+}
+
 // subsSubmitter records beacon committee subscriptions.
 type subsSubmitter struct {
-	mu    sync.Mutex
-	calls [][]*apiv1.BeaconCommitteeSubscription
+	mu     sync.Mutex
+	calls  [][]*apiv1.BeaconCommitteeSubscription
+	phases []int // phase in force when the call was made
+	phase  int   // 0 = start-up, 1 = after the reorg
+}
+
+func (s *subsSubmitter) setPhase(p int) {
+	s.mu.Lock()
+	s.phase = p
+	s.mu.Unlock()
+}
+
+// inPhase returns the subscriptions submitted while the given phase was in force.
+func (s *subsSubmitter) inPhase(p int) []*apiv1.BeaconCommitteeSubscription {
+	s.mu.Lock()
+	defer s.mu.Unlock()
+	var res []*apiv1.BeaconCommitteeSubscription
+	for i, c := range s.calls {
+		if s.phases[i] == p {
+			res = append(res, c...)
+		}
+	}
+	return res
 }
 
 func (s *subsSubmitter) SubmitBeaconCommitteeSubscriptions(_ context.Context, subs []*apiv1.BeaconCommitteeSubscription) error {
@@ -244,6 +317,7 @@ func (s *subsSubmitter) SubmitBeaconCommitteeSubscriptions(_ context.Context, su
 		}
 	}
 	s.calls = append(s.calls, cp)
+	s.phases = append(s.phases, s.phase)
 	return nil
 }
 
@@ -279,7 +353,10 @@ func (s *spyAggregator) AggregatorsAndSignatures(ctx context.Context, accounts [
 
 // attesterD is the controller's attester: it returns one attestation per
 // validator of the duty (except those scripted to fail), in scripted order.
-type attesterD struct{ c *Case }
+type attesterD struct {
+	c *Case
+	t *table
+}
 
 func attData(slot, committee, spe uint64) *phase0.AttestationData {
 	var root, src, tgt phase0.Root
@@ -303,8 +380,9 @@ func attData(slot, committee, spe uint64) *phase0.AttestationData {
 
 func (a *attesterD) Attest(_ context.Context, duty *attester.Duty) ([]*phase0.Attestation, error) {
 	spec := map[uint64]DutySpec{}
-	for _, d := range a.c.Duties {
-		if a.c.Committees[d.C].Slot == uint64(duty.Slot()) {
+	committees, duties := a.t.get()
+	for _, d := range duties {
+		if committees[d.C].Slot == uint64(duty.Slot()) {
 			spec[d.V] = d
 		}
 	}
@@ -352,6 +430,7 @@ func (s specProvider) Spec(context.Context, *api.SpecOpts) (*api.Response[map[st
 		"SLOTS_PER_EPOCH":                  s.spe,
 		"SECONDS_PER_SLOT":                 12 * time.Second,
 		"TARGET_AGGREGATORS_PER_COMMITTEE": s.target,
+		"EPOCHS_PER_SYNC_COMMITTEE_PERIOD": uint64(256),
 	}, Metadata: map[string]any{}}, nil
 }
 
@@ -465,7 +544,91 @@ func genCase(t *rapid.T) Case {
 	// the beacon node returns duties in the order of the request, which is arbitrary
 	perm := rapid.Permutation(c.Duties).Draw(t, "dutyOrder")
 	c.Duties = perm
+	if c.Epoch >= 1 && rapid.IntRange(0, 4).Draw(t, "reorg") < 2 {
+		c.Reorg = genReorg(t, &c)
+	}
 	return c
+}
+
+// genReorg draws the duty table after a reorg: in the epochs whose dependent root
+// changed about half of the validators move to another slot/committee (joining an
+// existing pair or opening a new one), the others keep their duty.
+func genReorg(t *rapid.T, c *Case) *ReorgSpec {
+	r := &ReorgSpec{}
+	room := c.SlotsPerEpoch - 1 - c.CurrentInEpoch
+	if room > 2 {
+		room = 2
+	}
+	r.Advance = rapid.Uint64Range(0, room).Draw(t, "reorgAdvance")
+	switch rapid.SampledFrom([]string{"previous", "previous", "current", "both"}).Draw(t, "reorgRoots") {
+	case "previous":
+		r.Previous = true
+	case "current":
+		r.Current = true
+	default:
+		r.Previous, r.Current = true, true
+	}
+	cur := c.currentSlot() + r.Advance
+	index := map[pairKey]int{}
+	usedPos := map[pairKey]map[uint64]bool{}
+	put := func(cm CommitteeSpec, pos uint64, d DutySpec) {
+		k := pairKey{cm.Slot, cm.Index}
+		ci, ok := index[k]
+		if !ok {
+			ci = len(r.Committees)
+			r.Committees = append(r.Committees, cm)
+			index[k] = ci
+			usedPos[k] = map[uint64]bool{}
+		}
+		usedPos[k][pos] = true
+		d.C, d.Pos = ci, pos
+		r.Duties = append(r.Duties, d)
+	}
+	var moved []DutySpec
+	for _, d := range c.Duties {
+		cm := c.Committees[d.C]
+		e := cm.Slot / c.SlotsPerEpoch
+		changed := (e == c.Epoch && r.Previous) || (e == c.Epoch+1 && r.Current)
+		if changed && rapid.Bool().Draw(t, "moves") {
+			moved = append(moved, d)
+			continue
+		}
+		put(cm, d.Pos, d)
+	}
+	for _, d := range moved {
+		e := c.Committees[d.C].Slot / c.SlotsPerEpoch
+		first := e * c.SlotsPerEpoch
+		last := first + c.SlotsPerEpoch - 1
+		slot := rapid.Uint64Range(first, last).Draw(t, "movedSlotAny")
+		if e == c.Epoch && cur < last && rapid.IntRange(0, 3).Draw(t, "movedToFuture") != 0 {
+			slot = rapid.Uint64Range(cur+1, last).Draw(t, "movedSlotFuture")
+		}
+		idx := rapid.Uint64Range(0, c.CommitteesAtSlot-1).Draw(t, "movedCommittee")
+		var cm CommitteeSpec
+		for tries := uint64(0); ; tries++ {
+			k := pairKey{slot, idx}
+			ci, ok := index[k]
+			if !ok {
+				cm = CommitteeSpec{Slot: slot, Index: idx, Size: rapid.OneOf(rapid.Uint64Range(1, 40), rapid.Uint64Range(41, 2048)).Draw(t, "movedSize")}
+				break
+			}
+			if uint64(len(usedPos[k])) < r.Committees[ci].Size {
+				cm = r.Committees[ci]
+				break
+			}
+			idx = (idx + 1) % c.CommitteesAtSlot
+			if tries > c.CommitteesAtSlot {
+				slot = first + (slot-first+1)%c.SlotsPerEpoch
+			}
+		}
+		k := pairKey{cm.Slot, cm.Index}
+		pos := rapid.Uint64Range(0, cm.Size-1).Draw(t, "movedPos")
+		for usedPos[k][pos] {
+			pos = (pos + 1) % cm.Size
+		}
+		put(cm, pos, d)
+	}
+	return r
 }
 
 // ---------------------------------------------------------------------------
@@ -482,10 +645,10 @@ type pairInfo struct {
 	hasAtt   bool     // the attester returns at least one attestation for the pair
 }
 
-func buildPairs(c *Case) map[pairKey]*pairInfo {
+func buildPairs(c *Case, committees []CommitteeSpec, duties []DutySpec) map[pairKey]*pairInfo {
 	pairs := map[pairKey]*pairInfo{}
-	for _, d := range c.Duties {
-		cm := c.Committees[d.C]
+	for _, d := range duties {
+		cm := committees[d.C]
 		k := pairKey{cm.Slot, cm.Index}
 		p := pairs[k]
 		if p == nil {
@@ -555,16 +718,15 @@ func goroutineBaseline() int {
 	return procBaseline
 }
 
-func validCase(c *Case) error {
-	if c.SlotsPerEpoch == 0 || c.Target == 0 || c.CommitteesAtSlot == 0 || c.CurrentInEpoch >= c.SlotsPerEpoch {
-		return fmt.Errorf("malformed world parameters")
-	}
+func validTable(c *Case, committees []CommitteeSpec, duties []DutySpec) error {
 	seen := map[[2]uint64]bool{}
-	for _, d := range c.Duties {
-		if d.C < 0 || d.C >= len(c.Committees) {
+	usedPos := map[[3]uint64]bool{}
+	sizeOf := map[pairKey]uint64{}
+	for _, d := range duties {
+		if d.C < 0 || d.C >= len(committees) {
 			return fmt.Errorf("malformed committee reference")
 		}
-		cm := c.Committees[d.C]
+		cm := committees[d.C]
 		e := cm.Slot / c.SlotsPerEpoch
 		if e != c.Epoch && e != c.Epoch+1 {
 			return fmt.Errorf("duty outside the two epochs")
@@ -573,8 +735,66 @@ func validCase(c *Case) error {
 			return fmt.Errorf("validator %d has two duties in epoch %d", d.V, e)
 		}
 		seen[[2]uint64{d.V, e}] = true
-		if d.Pos >= cm.Size {
-			return fmt.Errorf("position outside committee")
+		if d.Pos >= cm.Size || cm.Size > 2048 {
+			return fmt.Errorf("position outside committee or committee above 2048")
+		}
+		k := pairKey{cm.Slot, cm.Index}
+		if sz, ok := sizeOf[k]; ok && sz != cm.Size {
+			return fmt.Errorf("committee %d of slot %d has two sizes", cm.Index, cm.Slot)
+		}
+		sizeOf[k] = cm.Size
+		if usedPos[[3]uint64{cm.Slot, cm.Index, d.Pos}] {
+			return fmt.Errorf("position %d of committee %d of slot %d used twice", d.Pos, cm.Index, cm.Slot)
+		}
+		usedPos[[3]uint64{cm.Slot, cm.Index, d.Pos}] = true
+	}
+	return nil
+}
+
+func validCase(c *Case) error {
+	if c.SlotsPerEpoch == 0 || c.Target == 0 || c.CommitteesAtSlot == 0 || c.CurrentInEpoch >= c.SlotsPerEpoch {
+		return fmt.Errorf("malformed world parameters")
+	}
+	if err := validTable(c, c.Committees, c.Duties); err != nil {
+		return err
+	}
+	if r := c.Reorg; r != nil {
+		if c.Epoch == 0 || c.CurrentInEpoch+r.Advance >= c.SlotsPerEpoch || !(r.Previous || r.Current) {
+			return fmt.Errorf("malformed reorg step")
+		}
+		if err := validTable(c, r.Committees, r.Duties); err != nil {
+			return fmt.Errorf("table after the reorg: %w", err)
+		}
+		// same validators per epoch; unchanged epochs keep their duties
+		type row struct{ v, slot, index, size, pos uint64 }
+		rows := func(cs []CommitteeSpec, ds []DutySpec, full bool) map[row]bool {
+			m := map[row]bool{}
+			for _, d := range ds {
+				cm := cs[d.C]
+				if full {
+					m[row{d.V, cm.Slot, cm.Index, cm.Size, d.Pos}] = true
+				} else {
+					m[row{d.V, cm.Slot / c.SlotsPerEpoch, 0, 0, 0}] = true
+				}
+			}
+			return m
+		}
+		a, b := rows(c.Committees, c.Duties, false), rows(r.Committees, r.Duties, false)
+		if len(a) != len(b) {
+			return fmt.Errorf("the reorg changes the set of validators of an epoch")
+		}
+		for k := range a {
+			if !b[k] {
+				return fmt.Errorf("the reorg changes the set of validators of an epoch")
+			}
+		}
+		fa, fb := rows(c.Committees, c.Duties, true), rows(r.Committees, r.Duties, true)
+		for k := range fa {
+			e := k.slot / c.SlotsPerEpoch
+			unchanged := (e == c.Epoch && !r.Previous) || (e == c.Epoch+1 && !r.Current)
+			if unchanged && !fb[k] {
+				return fmt.Errorf("duties of an epoch whose dependent root did not change differ after the reorg")
+			}
 		}
 	}
 	return nil
@@ -586,10 +806,13 @@ type stats struct {
 	aggPairs, nonAggPairs           int
 	sharedPair                      bool
 	slotsAttested                   int
+	reorg, reorgNewFuturePair       bool
+	reorgNewAggregatorPair          bool
 }
 
 type env struct {
 	c       *Case
+	tab     *table
 	clock   *fakes.VClock
 	vs      []uint64
 	acc     *accountsProvider
@@ -597,7 +820,7 @@ type env struct {
 }
 
 func newEnv(ctx context.Context, c *Case) (*env, error) {
-	e := &env{c: c}
+	e := &env{c: c, tab: &table{committees: c.Committees, duties: c.Duties}}
 	e.clock = fakes.NewVClock(time.Unix(1600000000, 0), 12*time.Second, c.SlotsPerEpoch)
 	e.clock.SetSlot(c.currentSlot(), 2*time.Second)
 	seen := map[uint64]bool{}
@@ -633,7 +856,7 @@ func (e *env) newSubscriber(ctx context.Context, sub *subsSubmitter) (*standards
 		standardsubscriber.WithMonitor(nullmetrics.New()),
 		standardsubscriber.WithProcessConcurrency(4),
 		standardsubscriber.WithChainTimeService(e.clock),
-		standardsubscriber.WithAttesterDutiesProvider(&dutiesProvider{e.c}),
+		standardsubscriber.WithAttesterDutiesProvider(&dutiesProvider{e.c, e.tab}),
 		standardsubscriber.WithAttestationAggregator(e.realAgg),
 		standardsubscriber.WithBeaconCommitteeSubmitter(sub),
 	)
@@ -734,9 +957,16 @@ func (e *env) judgeInfo(epoch uint64, info map[phase0.Slot]map[phase0.CommitteeI
 
 // judgeSubscriptions compares the submitted subscriptions of an epoch.
 func (e *env) judgeSubscriptions(who string, epoch uint64, subs []*apiv1.BeaconCommitteeSubscription, pairs map[pairKey]*pairInfo) []judgement {
+	return e.judgeSubscriptionsAt(who, epoch, subs, pairs, e.c.currentSlot(), nil, true)
+}
+
+// judgeSubscriptionsAt judges the subscriptions submitted for an epoch while cur
+// was the current slot and pairs the duty table.  covered: pairs subscribed
+// earlier (they need not be submitted again); demand: whether every future pair
+// has to be covered at all (false for an epoch whose duties did not change).
+func (e *env) judgeSubscriptionsAt(who string, epoch uint64, subs []*apiv1.BeaconCommitteeSubscription, pairs map[pairKey]*pairInfo, cur uint64, covered map[pairKey]bool, demand bool) []judgement {
 	var js []judgement
 	c := e.c
-	cur := c.currentSlot()
 	want := map[pairKey]bool{}
 	nonFuture := false
 	for k := range pairs {
@@ -788,13 +1018,15 @@ func (e *env) judgeSubscriptions(who string, epoch uint64, subs []*apiv1.BeaconC
 	}
 	var missing []string
 	for k := range want {
-		if got[k] == 0 {
+		if got[k] == 0 && !covered[k] && demand {
 			missing = append(missing, fmt.Sprintf("(slot %d, committee %d)", k.slot, k.committee))
 		}
 	}
 	sort.Strings(missing)
 	if len(missing) > 0 {
-		if n == 0 && nonFuture {
+		if covered != nil {
+			js = append(js, judgement{"subscription-missing-after-duty-change", fmt.Sprintf("%s: epoch %d, current slot %d: the duties changed and these future pairs of the new duties were never subscribed: %s", who, epoch, cur, strings.Join(missing, " "))})
+		} else if n == 0 && nonFuture {
 			js = append(js, judgement{"subscriptions-dropped-when-epoch-has-non-future-duty", fmt.Sprintf("%s: epoch %d has duties at or before the current slot %d and NO subscription at all was submitted for it; missing future pairs: %s", who, epoch, cur, strings.Join(missing, " "))})
 		} else {
 			js = append(js, judgement{"subscription-missing", fmt.Sprintf("%s: epoch %d, current slot %d: no subscription submitted for future pairs %s", who, epoch, cur, strings.Join(missing, " "))})
@@ -817,7 +1049,7 @@ func runAndJudge(c *Case) (string, []judgement, stats) {
 	if err != nil {
 		return err.Error(), nil, st
 	}
-	pairs := buildPairs(c)
+	pairs := buildPairs(c, c.Committees, c.Duties)
 	cur := c.currentSlot()
 
 	// statistics for the non-trivial rule
@@ -886,6 +1118,7 @@ func runAndJudge(c *Case) (string, []judgement, stats) {
 		return "cannot construct subscriber: " + err.Error(), nil, st
 	}
 	sched := fakes.NewSched()
+	evp := &eventsProvider{handlers: map[string]eth2client.EventHandlerFunc{}}
 	spy := &spyAggregator{real: e.realAgg}
 	aggDelay := 8 * time.Second
 	ctrl, err := standardcontroller.New(ctx,
@@ -894,12 +1127,12 @@ func runAndJudge(c *Case) (string, []judgement, stats) {
 		standardcontroller.WithSpecProvider(specProvider{c.SlotsPerEpoch, c.Target}),
 		standardcontroller.WithChainTimeService(e.clock),
 		standardcontroller.WithProposerDutiesProvider(mock.NewProposerDutiesProvider()),
-		standardcontroller.WithAttesterDutiesProvider(&dutiesProvider{c}),
-		standardcontroller.WithEventsProvider(mock.NewEventsProvider()),
+		standardcontroller.WithAttesterDutiesProvider(&dutiesProvider{c, e.tab}),
+		standardcontroller.WithEventsProvider(evp),
 		standardcontroller.WithValidatingAccountsProvider(e.acc),
 		standardcontroller.WithProposalsPreparer(mockproposalpreparer.New()),
 		standardcontroller.WithScheduler(sched),
-		standardcontroller.WithAttester(&attesterD{c}),
+		standardcontroller.WithAttester(&attesterD{c, e.tab}),
 		standardcontroller.WithBeaconBlockProposer(mockbeaconblockproposer.New()),
 		standardcontroller.WithBeaconCommitteeSubscriber(s2),
 		standardcontroller.WithAttestationAggregator(spy),
@@ -921,19 +1154,73 @@ func runAndJudge(c *Case) (string, []judgement, stats) {
 		js = append(js, e.judgeSubscriptions("controller start-up", epoch, sub2.all(), pairs)...)
 	}
 
-	// duties per slot, as the controller obtains them
-	var apiDuties []*apiv1.AttesterDuty
+	// ---- history step: the duties change (reorg across a duty-dependent root)
+	if r := c.Reorg; r != nil {
+		head := evp.handlers["head"]
+		if head == nil {
+			return "the controller did not register a head event handler", nil, st
+		}
+		mkRoot := func(b byte) phase0.Root { var x phase0.Root; x[0], x[31] = b, 0xee; return x }
+		// the head seen so far: establishes the dependent roots the duties were computed from
+		head(&apiv1.Event{Topic: "head", Data: &apiv1.HeadEvent{Slot: phase0.Slot(cur), Block: mkRoot(1),
+			PreviousDutyDependentRoot: mkRoot(10), CurrentDutyDependentRoot: mkRoot(20)}})
+		if !quiesce(baseline) {
+			return "goroutines of the head event handler did not finish", nil, st
+		}
+		// time passes, the chain re-organises, the node serves the new duties
+		cur += r.Advance
+		e.clock.SetSlot(cur, 2*time.Second)
+		e.tab.set(r.Committees, r.Duties)
+		sub2.setPhase(1)
+		prevRoot, curRoot := mkRoot(10), mkRoot(20)
+		if r.Previous {
+			prevRoot = mkRoot(11)
+		}
+		if r.Current {
+			curRoot = mkRoot(21)
+		}
+		head(&apiv1.Event{Topic: "head", Data: &apiv1.HeadEvent{Slot: phase0.Slot(cur), Block: mkRoot(2),
+			PreviousDutyDependentRoot: prevRoot, CurrentDutyDependentRoot: curRoot}})
+		if !quiesce(baseline) {
+			return "goroutines of the duty refresh did not finish", nil, st
+		}
+		// what was validly subscribed before stays subscribed
+		covered := map[pairKey]bool{}
+		for _, x := range sub2.inPhase(0) {
+			covered[pairKey{uint64(x.Slot), uint64(x.CommitteeIndex)}] = true
+		}
+		oldPairs := pairs
+		pairs = buildPairs(c, r.Committees, r.Duties)
+		for _, epoch := range []uint64{c.Epoch, c.Epoch + 1} {
+			changed := (epoch == c.Epoch && r.Previous) || (epoch == c.Epoch+1 && r.Current)
+			js = append(js, e.judgeSubscriptionsAt("after the duty change", epoch, sub2.inPhase(1), pairs, cur, covered, changed)...)
+			if changed {
+				for k, p := range pairs {
+					if k.slot/c.SlotsPerEpoch == epoch && k.slot > cur && oldPairs[k] == nil {
+						st.reorgNewFuturePair = true
+						if len(p.selected) > 0 && p.hasAtt {
+							st.reorgNewAggregatorPair = true
+						}
+					}
+				}
+			}
+		}
+		st.reorg = true
+	}
+
+	// duties per slot, as the controller obtains them (one merge per epoch)
+	var duties []*attester.Duty
 	for _, epoch := range []uint64{c.Epoch, c.Epoch + 1} {
 		idx := make([]phase0.ValidatorIndex, 0, len(e.vs))
 		for _, v := range e.vs {
 			idx = append(idx, phase0.ValidatorIndex(v))
 		}
-		resp, _ := (&dutiesProvider{c}).AttesterDuties(ctx, &api.AttesterDutiesOpts{Epoch: phase0.Epoch(epoch), Indices: idx})
-		apiDuties = append(apiDuties, resp.Data...)
-	}
-	duties, err := attester.MergeDuties(ctx, apiDuties)
-	if err != nil {
-		return "MergeDuties failed: " + err.Error(), nil, st
+		resp, _ := (&dutiesProvider{c, e.tab}).AttesterDuties(ctx, &api.AttesterDutiesOpts{Epoch: phase0.Epoch(epoch), Indices: idx})
+		merged, err := attester.MergeDuties(ctx, resp.Data)
+		if err != nil {
+			return "MergeDuties failed: " + err.Error(), nil, st
+		}
+		duties = append(duties, merged...)
 	}
 	for _, duty := range duties {
 		slot := uint64(duty.Slot())
@@ -1047,7 +1334,7 @@ func check(t ev.TB, c *Case) {
 	if harness != "" {
 		t.Fatalf("harness problem: %s", harness)
 	}
-	nontrivial := st.bothSides || st.multiAggSlot
+	nontrivial := st.bothSides || st.multiAggSlot || st.reorgNewFuturePair
 	var labels []string
 	if st.bothSides {
 		labels = append(labels, "duties-on-both-sides-of-current-slot")
@@ -1063,6 +1350,15 @@ func check(t ev.TB, c *Case) {
 	}
 	if st.sharedPair {
 		labels = append(labels, "committee-with-several-of-our-validators")
+	}
+	if st.reorg {
+		labels = append(labels, "history-with-duty-change")
+	}
+	if st.reorgNewFuturePair {
+		labels = append(labels, "duty-change-creates-new-future-pair")
+	}
+	if st.reorgNewAggregatorPair {
+		labels = append(labels, "duty-change-creates-new-future-aggregator-pair")
 	}
 	if st.aggPairs > 0 && st.nonAggPairs > 0 {
 		labels = append(labels, "aggregator-and-non-aggregator-pairs")
